@@ -472,7 +472,7 @@ def case_repo_tests(ctx):
 def workload(tier, seed):
     q = tier == "quick"
     n = 54
-    for rs in range(1 if q else 4):
+    for rs in range(1 if q else 10):
         for lo in range(0, n, 3):
             yield "library", {"rseed": seed * 100 + rs, "lo": lo, "hi": lo + 3}
     m = len(realistic())
@@ -482,7 +482,7 @@ def workload(tier, seed):
     step = 40 if q else 10
     for lo in range(0, k, step):
         yield "cli", {"which": "small", "lo": lo, "hi": lo + (10 if q else step), "rseed": seed}
-    for i in range(16 if q else 200):
+    for i in range(16 if q else 1000):
         yield "interleave", {"rseed": seed * 1000 + i, "count": 200}
     if not q:
         yield "repo_tests", {}
